@@ -139,3 +139,68 @@ Proof.
   - apply wf_heapb_ok; auto.
   - apply N.ltb_lt; auto.
 Qed.
+
+(* ---- the Config path on graphs, in full for the memory part: both copies
+   terminate and succeed.  The entry copy does so by deep_copy_succeeds; its
+   output satisfies the guards again (Copy/DeepCopyGuard.v: new backing arrays
+   inherit the rank of the array they were copied from), so compose's copy of
+   the pristine copy does too - with the fuel bound taken at the allocator
+   position n1 the entry copy left (the second copy's input heap has n1
+   addresses). ---- *)
+From Dials Require Import Copy.DeepCopyTotal Copy.DeepCopyGuard.
+
+Theorem config_on_graphs_l : forall fuel fs h n0 R D rk defaults,
+  wf_heap h n0 -> wf_rank h R D rk -> wf_kinds h ->
+  wf_root n0 R D rk (HPtr (Some defaults)) -> vok h (HPtr (Some defaults)) ->
+  (copy_fuel n0 R D <= fuel)%nat ->
+  exists st1 d,
+    (* the entry copy returns ... *)
+    deep_copy true fuel h n0 (HPtr (Some defaults)) = Done (st1, HPtr (Some d)) /\
+    (* ... and, with fuel for a heap of c_next st1 addresses, so does the whole call *)
+    ((copy_fuel (c_next st1) R D <= fuel)%nat ->
+     exists H N v pm mm,
+       config_h fuel fs h n0 defaults [mk_event [] []] = Done ((H, N), d, [v]) /\
+       vrel pm mm H (HPtr (Some defaults)) (HPtr (Some (v_root v))) /\ bisim pm mm H /\
+       (forall a, reach H [(RCell, v_root v)] a -> n0 <= a /\ hget h a = None) /\
+       (forall a o, hget h a = Some o -> hget H a = Some o)).
+Proof.
+  intros fuel fs h n0 R D rk defaults Hwf Hrk Hk Hroot V Hf.
+  destruct (deep_copy_succeeds_P h n0 R D rk _ fuel Hwf Hrk Hk Hroot V Hf) as (st1 & v1 & H1).
+  assert (Hb : refs_below n0 (refs (HPtr (Some defaults)))) by (apply Hroot).
+  assert (Hdef : defaults < n0) by (apply (Hb RCell defaults); simpl; auto).
+  destruct (deep_copy_bisimilar_l h n0 _ fuel st1 v1 Hwf Hb H1) as [R1 _].
+  inversion R1; subst. rename a' into d.
+  exists st1, d. split; [exact H1|]. intro Hf2.
+  destruct (deep_copy_guard_l h n0 R D rk _ fuel st1 _ Hwf Hrk Hk Hroot V H1) as (rk1 & Hwf1 & Hrk1 & Hk1 & Hroot1 & V1).
+  destruct (deep_copy_succeeds_P _ _ R D rk1 _ fuel Hwf1 Hrk1 Hk1 Hroot1 V1 Hf2) as (st2 & v2 & H2).
+  assert (Hb1 : refs_below (c_next st1) (refs (HPtr (Some d)))) by (apply Hroot1).
+  destruct (deep_copy_bisimilar_l _ _ _ fuel st2 v2 Hwf1 Hb1 H2) as [R2 _].
+  inversion R2; subst. rename a' into d2.
+  assert (Hc : config_h fuel fs h n0 defaults [mk_event [] []] =
+               Done ((c_heap st2, c_next st2), d, [mk_version d2 (c_next st1) (c_next st2)])).
+  { unfold config_h. rewrite H1. simpl. unfold compose_h. rewrite H2. reflexivity. }
+  destruct (config_on_graphs_partial_l fuel fs h n0 defaults _ _ d _ Hwf Hdef Hc) as (v & pm & mm & Ev & Q1 & Q2 & Q3 & Q4).
+  inversion Ev; subst v.
+  exists (c_heap st2), (c_next st2), (mk_version d2 (c_next st1) (c_next st2)), pm, mm.
+  split; [exact Hc|]. auto.
+Qed.
+
+Theorem config_on_graphs_b : forall fuel fs h n0 R D rk defaults,
+  c03_guard_total h n0 R D rk (HPtr (Some defaults)) = true ->
+  (copy_fuel n0 R D <= fuel)%nat ->
+  exists st1 d,
+    deep_copy true fuel h n0 (HPtr (Some defaults)) = Done (st1, HPtr (Some d)) /\
+    ((copy_fuel (c_next st1) R D <= fuel)%nat ->
+     exists H N v pm mm,
+       config_h fuel fs h n0 defaults [mk_event [] []] = Done ((H, N), d, [v]) /\
+       vrel pm mm H (HPtr (Some defaults)) (HPtr (Some (v_root v))) /\ bisim pm mm H /\
+       (forall a, reach H [(RCell, v_root v)] a -> n0 <= a /\ hget h a = None) /\
+       (forall a o, hget h a = Some o -> hget H a = Some o)).
+Proof.
+  intros fuel fs h n0 R D rk defaults G Hf. unfold c03_guard_total in G.
+  apply andb_true_iff in G as [G G3]. apply andb_true_iff in G as [G1 G2].
+  unfold c03_guard in G1. apply andb_true_iff in G1 as [G1 Gr]. apply andb_true_iff in G1 as [Gw Grk].
+  unfold root_kindsb in G3. apply andb_true_iff in G3 as [G3 C]. apply andb_true_iff in G3 as [A B].
+  apply (config_on_graphs_l fuel fs h n0 R D rk defaults); auto using wf_heapb_ok, wf_rankb_ok, wf_rootb_ok, wf_kindsb_ok.
+  split; [auto|split; auto].
+Qed.
